@@ -323,6 +323,16 @@ def c09(ctx):
                     + '-----END PGP SIGNATURE-----\n')
                 add('escaped-armor-in-signed-part', '-----BEGIN PGP SIGNED MESSAGE-----\nHash: SHA512\n\n' + before + inner + '\n' + after
                     + '-----BEGIN PGP SIGNATURE-----\n\nAAAA\n-----END PGP SIGNATURE-----\n')
+    # the OpenPGP frame with pieces missing or out of order, loaded without verification (verify -P, discovery): every sequence of up to five
+    # lines over the frame's line classes - e.g. entries that follow the armor headers without the empty separator line are headers, the
+    # text then ends "before the signature"
+    import itertools
+    frame = ['-----BEGIN PGP SIGNED MESSAGE-----', 'Hash: SHA256', '', 'DATA a 0', '-----BEGIN PGP SIGNATURE-----', 'AAAA', '-----END PGP SIGNATURE-----']
+    for n in range(1, 6 if quick else 7):
+        for seq in itertools.product(frame, repeat=n):
+            if seq[0] != frame[0] and r.random() < 0.8:
+                continue           # (texts that do not start with the BEGIN line are sampled)
+            add('frame-sequences', '\n'.join(seq) + '\n')
     # every escape form over its value range
     for v in range(256):
         add('esc-x', 'DATA a\\x%02X 0\n' % v)
@@ -347,7 +357,19 @@ def c09(ctx):
                 ctx.violation('spec', f'exception {x[1]} escapes the parser', {'text': t, 'impl': x})
         elif x[0] == 'ok':
             es = x[1][0]
-            nonblank = sum(1 for l in t.replace('\r\n', '\n').replace('\r', '\n').split('\n') if l.strip())
+            ls = t.replace('\r\n', '\n').replace('\r', '\n').split('\n')
+            if '-----BEGIN PGP SIGNED MESSAGE-----' in ls[:-1]:
+                # an accepted signed frame: the entries are the non-blank lines of the signed part (between the first whitespace-only
+                # line after the BEGIN line and the BEGIN-SIGNATURE line); armor headers and the signature block are not entries
+                try:
+                    b0 = ls.index('-----BEGIN PGP SIGNED MESSAGE-----')
+                    sep = next(k for k in range(b0 + 1, len(ls)) if not ls[k].strip())
+                    sb = ls.index('-----BEGIN PGP SIGNATURE-----', sep + 1)
+                    ls = ls[sep + 1:sb]
+                except (StopIteration, ValueError):
+                    ctx.violation('spec', 'a text with a BEGIN-SIGNED line but without a complete frame was accepted', {'text': t, 'entries': es})
+                    continue
+            nonblank = sum(1 for l in ls if l.strip())
             if len(es) != nonblank:
                 ctx.violation('spec', 'a line was skipped or split', {'text': t, 'entries': es})
             # field counts of the accepted lines (signed Manifests aside): TIMESTAMP / IGNORE exactly one value,
